@@ -12,6 +12,7 @@ makes the start-up end consistent.
 -/
 import CaddyModel.C14.Lemmas
 import CaddyModel.C14.FileStoreLemmas
+import CaddyModel.C14.Resume
 
 namespace CaddyModel.C14
 
@@ -178,5 +179,30 @@ theorem inPlace_store_not_atomic :
   intro h
   obtain ⟨b, hb⟩ := h .rootCrt (.part (.cert 0 0 0) 3) (by decide)
   cases hb
+
+/-! ### resume: a reader that evaluates the autosave path before the env files are processed -/
+
+/-- HOME is /1, the env file defines XDG_CONFIG_HOME=/2; `--config` holds `[1]` -/
+def resumeWitness : CmdLine := ⟨⟨.unset, .dir 1⟩, [[(.xdg, .dir 2)]], true, exLoad [1] true true⟩
+
+/-- **resume_recovers_latest_push fails for a reader that copies `caddy.ConfigAutosavePath` before
+    `handleEnvFileFlag`** (seeded mutant C14-resume-reads-autosave-path-before-envfile): the first
+    process autosaves the pushed config `[2]` into $XDG_CONFIG_HOME/caddy; the restarted process
+    looks into $HOME/.config/caddy, finds nothing, loads `--config` `[1]` — and its own autosave
+    then OVERWRITES the pushed config. -/
+theorem resume_before_envfiles_fails :
+    (processRun .beforeEnvFiles (fun b => exLoad b true true) resumeWitness [.load (exLoad [2] true true) none]
+        CDisk.empty (.xdg 2)).path = some [2] ∧
+    (firstLoad .beforeEnvFiles (fun b => exLoad b true true) resumeWitness
+      (processRun .beforeEnvFiles (fun b => exLoad b true true) resumeWitness [.load (exLoad [2] true true) none]
+        CDisk.empty)).cfg = [1] ∧
+    (processRun .beforeEnvFiles (fun b => exLoad b true true) resumeWitness []
+      (processRun .beforeEnvFiles (fun b => exLoad b true true) resumeWitness [.load (exLoad [2] true true) none]
+        CDisk.empty) (.xdg 2)).path = some [1] := by decide
+
+/-- the same history under the current code resumes with `[2]` -/
+example : (firstLoad codeReadAt (fun b => exLoad b true true) resumeWitness
+      (processRun codeReadAt (fun b => exLoad b true true) resumeWitness [.load (exLoad [2] true true) none]
+        CDisk.empty)).cfg = [2] := by decide
 
 end CaddyModel.C14
